@@ -557,6 +557,7 @@ func (s *Service) leaderLoop() (chan struct{}, chan struct{}) {
 			}
 		}()
 
+		vhook.Gate("cdc.leaderloop", s.nodeID)
 		for {
 			// An event a previous leader loop of this node took from the FIFO but did
 			// not send goes first: the FIFO does not emit an event twice.
